@@ -360,6 +360,9 @@ class DocGen:
     def add_media(self):
         rng = self.rng
         ext = rng.choice(["png", "PNG", "jpg", "jpeg", "gif", "bmp", "tif", "emf", "wmf", "svg", "bin", "jpe"])
+        if self.pf.get("clean_media"):
+            # optional profile key: only pictures that every browser shows (png, gif, jpeg), declared as such
+            ext = rng.choice(["png", "gif", "jpg", "jpeg"])
         name = "media/image%d.%s" % (len(self.media) + 1, ext)
         data = bytes(rng.randrange(256) for _ in range(rng.choice([0, 1, 2, 3, 4, 5, 17, 64])))
         if self.pf.get("big_media", 0) > 0 and rng.random() < self.pf["big_media"]:
@@ -375,6 +378,8 @@ class DocGen:
     def blip(self):
         rng = self.rng
         r = rng.random()
+        if self.pf.get("clean_media"):
+            r = 0.0
         if r < 0.8:
             attrs = [("r:embed", self.add_media())]
             self.hit("image-embedded")
@@ -393,7 +398,7 @@ class DocGen:
         if rng.random() < 0.25:
             # VML
             attrs = []
-            if rng.random() < 0.85:
+            if rng.random() < 0.85 or self.pf.get("clean_media"):
                 attrs.append(("r:id", self.add_media()))
             if rng.random() < 0.5:
                 attrs.append(("o:title", self.text(3)))
@@ -1021,6 +1026,10 @@ class DocGen:
         for name, data, how, ext in self.media:
             parts.append({"name": name, "hex": data.hex()})
             ctype = rng.choice(["image/png", "image/jpeg", "image/gif", "image/x-emf", "image/svg+xml", "image/tiff", "application/octet-stream"])
+            if self.pf.get("clean_media"):
+                ctype = {"png": "image/png", "gif": "image/gif", "jpg": "image/jpeg", "jpeg": "image/jpeg"}[ext]
+                if how == "none" and not have_ct:
+                    pass    # no content-types part: the built-in extension table decides (png, gif, jpeg, jpg are in it)
             if how in ("override", "both"):
                 overrides.append(("/" + name, ctype))
             if how in ("default", "both"):
